@@ -778,3 +778,67 @@ Section BridgeC01.
     rewrite Hx, (Hcell (i mod R) (i / R)) by (rewrite ?ER; auto). fold R. rewrite <- Hd. reflexivity.
   Qed.
 End BridgeC01.
+
+(* ---------- the cheaply evaluated f32 kernels are the kernels ---------- *)
+
+Section FastKernels.
+  Context {T : Type}.
+  Variable le : T -> T -> bool.
+  Variable lt : T -> T -> bool.
+  Variable ninf : T.
+
+  Lemma fold_left_ext_in {A B} (f g : A -> B -> A) (l : list B) :
+    (forall a x, In x l -> f a x = g a x) -> forall a, fold_left f l a = fold_left g l a.
+  Proof.
+    induction l as [|x l IH]; intros H a; cbn [fold_left]; auto.
+    rewrite (H a x (or_introl eq_refl)). apply IH. intros a' y Hy. apply H. right; auto.
+  Qed.
+
+  Lemma vstep_id_eq (width : nat) (load : list T -> list (list T)) (st : @vstate T) (irow : nat * list T) :
+    wrap32 (fst irow) = fst irow ->
+    argmax_vstep le width load st irow = argmax_vstep_id le width load st irow.
+  Proof. intros H. unfold argmax_vstep, argmax_vstep_id. destruct st as [s p]. rewrite H. reflexivity. Qed.
+
+  Lemma fold_vstep_id (width : nat) (load : list T -> list (list T)) (m : list (list T)) (st : @vstate T) :
+    rows_fit32b m = true ->
+    fold_left (argmax_vstep le width load) (enumerate m) st =
+    fold_left (argmax_vstep_id le width load) (enumerate m) st.
+  Proof.
+    intros Hfit. apply fold_left_ext_in. intros a [i row] Hin. apply vstep_id_eq. cbn [fst].
+    apply wrap32_small. apply in_enumerate_lt in Hin.
+    unfold rows_fit32b in Hfit. apply N.leb_le in Hfit. lia.
+  Qed.
+
+  Lemma argmax_f32_avx2_x_fast_eq (m : list (list T)) (row0 : list T) :
+    argmax_f32_avx2_x_fast le m row0 = argmax_f32_avx2_x le m row0.
+  Proof.
+    unfold argmax_f32_avx2_x_fast. destruct (rows_fit32b m) eqn:E; auto.
+    unfold argmax_f32_avx2_x. rewrite (fold_vstep_id 8 load4x8 m _ E). reflexivity.
+  Qed.
+
+  Lemma sse2_block_fast_eq (m : list (list T)) (off : nat) :
+    sse2_block_fast le ninf m off = sse2_block le ninf m off.
+  Proof.
+    unfold sse2_block_fast. destruct (rows_fit32b m) eqn:E; auto.
+    unfold sse2_block. rewrite (fold_vstep_id 4 (load4x4 off) m _ E). reflexivity.
+  Qed.
+
+  Theorem fast_kernels_eq (C : nat) (a : arm) (max_index : N) (m : list (list T)) :
+    argmax_f32_avx2_fast le lt max_index m = argmax_f32_avx2 le lt max_index m /\
+    argmax_sse2_fast le ninf C max_index m = argmax_sse2 le ninf C max_index m /\
+    pipeline_sse2_max_fast le ninf C max_index m = pipeline_sse2_max le ninf C max_index m /\
+    dispatch_argmax_f32_fast le lt ninf a max_index m = dispatch_argmax_f32 le lt ninf a max_index m.
+  Proof.
+    assert (H1 : forall mi, argmax_f32_avx2_fast le lt mi m = argmax_f32_avx2 le lt mi m).
+    { intros mi. unfold argmax_f32_avx2_fast, argmax_f32_avx2. destruct m as [|row0 rest]; auto.
+      rewrite argmax_f32_avx2_x_fast_eq. reflexivity. }
+    assert (H2 : forall C' mi, argmax_sse2_fast le ninf C' mi m = argmax_sse2 le ninf C' mi m).
+    { intros C' mi. unfold argmax_sse2_fast, argmax_sse2. destruct m as [|row0 rest]; auto.
+      replace (flat_map (fun b => sse2_block_fast le ninf (row0 :: rest) (b * 16)) (seq 0 (C' / 16)))
+        with (flat_map (fun b => sse2_block le ninf (row0 :: rest) (b * 16)) (seq 0 (C' / 16))); auto.
+      apply flat_map_ext. intros b. symmetry. apply sse2_block_fast_eq. }
+    split; [apply H1|]. split; [apply H2|]. split.
+    - unfold pipeline_sse2_max_fast, pipeline_sse2_max. rewrite H2. reflexivity.
+    - destruct a; cbn [dispatch_argmax_f32_fast dispatch_argmax_f32]; auto.
+  Qed.
+End FastKernels.
